@@ -24,6 +24,7 @@ type Ctx struct {
 	Repo   string
 	Tier   string
 	Config string
+	ConfigName string
 	Fset   *token.FileSet
 	Pkgs   []*packages.Package
 	Lib    *packages.Package
@@ -57,12 +58,20 @@ func load(repo, overlayFile string, extraEnv []string) (*Ctx, error) {
 		return nil, err
 	}
 	env := append(os.Environ(), "GOFLAGS=-mod=mod", "GOPROXY=off", "GOSUMDB=off", "GOTOOLCHAIN=local", "GOWORK=off")
-	env = append(env, extraEnv...)
+	var buildFlags []string
+	for _, e := range extraEnv {
+		if strings.HasPrefix(e, "-") {
+			buildFlags = append(buildFlags, e)
+		} else {
+			env = append(env, e)
+		}
+	}
 	cfg := &packages.Config{
-		Mode:  packages.LoadSyntax | packages.NeedModule,
-		Dir:   abs,
-		Env:   env,
-		Tests: false,
+		Mode:       packages.LoadSyntax | packages.NeedModule,
+		Dir:        abs,
+		Env:        env,
+		BuildFlags: buildFlags,
+		Tests:      false,
 	}
 	if overlayFile != "" {
 		b, err := os.ReadFile(overlayFile)
